@@ -781,9 +781,35 @@ def ite_adapters(prog):
         ITE_PREDS = {"is_compl_choice": lambda v: v == "IteComplChoice"}
         VAR = {0: "IteChoice", 1: "IteComplChoice"}
 
+        def fold_consts(x):
+            """a choice on a condition that has become a constant picks its arm"""
+            if not isinstance(x, tuple) or not x:
+                return x
+            if x[0] == "call":
+                return (x[0], x[1], tuple(fold_consts(a) for a in x[2])) + tuple(x[3:])
+            x = tuple(fold_consts(a) if isinstance(a, tuple) else a for a in x)
+            if x[0] == "gamma":
+                c = strip(x[1])
+                if isinstance(c, tuple) and c and c[0] == "const" and c[2] in ("0", "1"):
+                    for lab, v in x[2]:
+                        if lab == c[2] or (isinstance(lab, tuple) and lab and lab[0] == "not" and c[2] not in lab[1]):
+                            return v
+            return x
+
         def spec(te_, t, flag):
-            # the flag is the variant of the triple: is_compl_choice(ite), or a match on the triple itself
-            return canon.project(canon.assume_variant(te_, _specialise(t, flag), ("param", 2), VAR[flag], ITE_PREDS))
+            # the flag is the variant of the triple: is_compl_choice(ite), a match on the triple itself, or a flag computed
+            # from it by a helper (`ite.cache_key()`: the helper's match resolved to the variant, projections reduced)
+            from .gl import _resolve
+            t1 = canon.assume_variant(te_, _specialise(t, flag), ("param", 2), VAR[flag], ITE_PREDS)
+
+            def deep(x):
+                if not isinstance(x, tuple) or not x:
+                    return x
+                if x[0] == "call":
+                    return (x[0], x[1], tuple(deep(a) for a in x[2])) + tuple(x[3:])
+                x = tuple(deep(a) if isinstance(a, tuple) else a for a in x)
+                return _resolve(x, flag) if x[0] == "gamma" else x
+            return fold_consts(canon.project(deep(t1)))
         if stored is None:
             why.append("no insertion into the backing table found")
         else:
@@ -804,9 +830,10 @@ def ite_adapters(prog):
             ps = set()
             for o in outs:
                 o = spec(tg, canon.inline_local(prog, o, helper_ok), flag)
-                base = [x for x in mir.subterms(o) if canon.is_payload(x) and mir.is_call(strip(x[1][1]), "get")]
+                base = [x for x in mir.subterms(o) if canon.is_payload(x) and mir.is_call(strip(x[1][1]), "get") and
+                        "table" in show(strip(x[1][1])[2][0])]
                 if not base:
-                    continue   # an answer that does not come from the table (a constant triple)
+                    continue   # an answer that does not come from the table (a constant triple, a remembered last hit)
                 ps.add(_parity(o, base[0]))
             if len(ps) == 1 and None not in ps:
                 rd[flag] = ps.pop()
@@ -823,10 +850,10 @@ def ite_adapters(prog):
                 pars, keys = [], []
                 for flag in (0, 1):
                     v = spec(tg, canon.inline_local(prog, cs.args[1], helper_ok), flag)
-                    tup = [x for x in mir.subterms(v) if x[0] == "agg" and x[1] == "tuple" and len(x[4]) == 2]
+                    tup = [x for x in mir.subterms(v) if x[0] == "agg" and x[1] == "tuple" and len(x[4]) >= 2]
                     if not tup:
                         continue
-                    val = strip(tup[0][4][1])
+                    val = strip(tup[0][4][-1])
                     pv = None
                     cands = [val]
                     if canon.is_payload(val):
@@ -837,7 +864,10 @@ def ite_adapters(prog):
                         if base:
                             pv = _parity(o, base[0])
                     pars.append(pv)
-                    keys.append(show(tup[0][4][0]))
+                    comps = [strip(k_) for k_ in tup[0][4][:-1]]
+                    # the whole triple value (the enum, variant included) as a key component carries the flag
+                    whole = any(mir.strip_refs(k_) == ("param", 2) for k_ in comps)
+                    keys.append("<whole Ite #%d>" % flag if whole else " ".join(show(k_) for k_ in comps))
                 reads = [o for flag in (0, 1) for o in (canon.option_outcomes(prog, tg, spec(tg, rt, flag)) or []) if cell in show(o)]
                 if len(pars) == 2 and None not in pars and pars[0] != pars[1] and keys[0].replace("IteComplChoice", "IteChoice") == keys[1].replace("IteComplChoice", "IteChoice") and reads:
                     if not any(mir.is_call(x, "neg") for o in reads for x in [strip(o)]):
